@@ -1,4 +1,5 @@
 """C17 - walking and printing a chain reproduce the game."""
+from . import shared
 from . import chainrules, witness
 
 
@@ -26,3 +27,4 @@ def run(ctx):
     witness.cf_rule(ctx, 'W3', ('cf/C17/',),
                     'a chain cannot be mutated while a Walker borrows it (compile-fail witness E0502 with compiling twin)')
     chainrules.styled_list_rule(ctx, facts, "W5")
+    shared.undo_component(ctx, facts, "W6", "stepping backward unmakes moves on the walker's board")
